@@ -5,8 +5,9 @@
 (* lower / upper (the while-loop of _merge_regions), visited / region_done / polygons        *)
 (* (_scan) and ij / forward / left / prev_forward / pass_ / npoints / points (_follow).      *)
 (* One action per labelled pixel, per iteration of the merge loop, per scan test and per     *)
-(* iteration of the boundary-following loop (both passes).  Every raster over VALS (NANV =   *)
-(* masked-out cell) of an H x W grid is an initial state; the run is then deterministic.     *)
+(* iteration of the boundary-following loop (second pass; the counting first pass, which    *)
+(* has no side effect, is one step).  Every raster over VALS (NANV = masked-out cell) of an   *)
+(* H x W grid is an initial state; the run is then deterministic.                             *)
 (* Abstract layer: Components (Components.tla) and Lossless (PolygonizeOps.tla).            *)
 EXTENDS PolygonizeOps, TLC
 
@@ -37,7 +38,7 @@ Init == /\ vals \in [0..H-1 -> [0..W-1 -> VALS]]
         /\ lower = 0 /\ upper = 0
         /\ visited = [k \in 0..NN-1 |-> 0] /\ region_done = 0 /\ polygons = <<>>
         /\ fstart = 0 /\ fhole = FALSE /\ fij = 0 /\ forward = 0 /\ left = 0 /\ prev_forward = 0
-        /\ pass_ = 0 /\ npoints = 0 /\ points = <<>> /\ alloc = 0 /\ allocok = TRUE
+        /\ pass_ = 1 /\ npoints = 0 /\ points = <<>> /\ alloc = 0 /\ allocok = TRUE
         /\ comps = Components(G)
 
 follow_vars == <<fstart, fhole, fij, forward, left, prev_forward, pass_, npoints, points, alloc, allocok>>
@@ -75,11 +76,14 @@ CompactLookup ==
 \* ------------------------------------------------------------ _scan
 SC == [visited |-> visited, region_done |-> region_done, polygons |-> polygons]
 
+\* _follow is entered; its first pass (which only counts the points, no side effect) is one step:
+\* alloc = the npoints it returns, i.e. points = np.empty(2*(alloc+1)); the second pass is stepwise
 StartFollow(k, hole) ==
-  LET f == FollowInit(A, visited, k, hole, 0, <<>>) IN
+  LET f0 == FollowLoop(A, regions, FollowInit(A, visited, k, hole, 0, <<>>), regions[k], hole, k, FollowFuel(A))
+      f == FollowInit(A, visited, k, hole, 1, <<>>) IN
   /\ pc' = "follow" /\ fstart' = k /\ fhole' = hole
   /\ fij' = f.ij /\ forward' = f.forward /\ left' = f.left /\ prev_forward' = f.prev_forward
-  /\ pass_' = 0 /\ npoints' = 0 /\ points' = <<>> /\ alloc' = 0
+  /\ pass_' = 1 /\ npoints' = 0 /\ points' = <<>> /\ alloc' = IF f0.fin THEN f0.npoints ELSE -1
   /\ UNCHANGED <<allocok, ij>>
 
 AfterScanPixel == IF ij = NN - 1 THEN pc' = "done" /\ ij' = ij ELSE pc' = "scan_ext" /\ ij' = ij + 1
@@ -109,13 +113,6 @@ FollowStep ==
      THEN /\ fij' = f1.ij /\ forward' = f1.forward /\ left' = f1.left /\ prev_forward' = f1.prev_forward
           /\ npoints' = f1.npoints /\ points' = f1.points /\ visited' = f1.visited
           /\ UNCHANGED <<pc, ij, pass_, alloc, allocok, region_done, polygons, fstart, fhole>>
-     ELSE IF pass_ = 0
-     THEN \* end of the first pass: points = np.empty(2*(npoints+1)); start again
-          LET f == FollowInit(A, visited, fstart, fhole, 1, <<>>) IN
-          /\ alloc' = f1.npoints /\ pass_' = 1
-          /\ fij' = f.ij /\ forward' = f.forward /\ left' = f.left /\ prev_forward' = f.prev_forward
-          /\ npoints' = 0 /\ points' = <<>>
-          /\ UNCHANGED <<pc, ij, visited, allocok, region_done, polygons, fstart, fhole>>
      ELSE \* end of the second pass: close the ring and hand it to _scan
           LET ring == Append(f1.points, f1.points[1]) IN
           /\ visited' = f1.visited
@@ -182,6 +179,8 @@ HoleOwnerExists == (pc = "follow" /\ fhole) => regions[fstart] \in 1..Len(polygo
 \* the second pass never writes past the array sized by the first pass, and fills it exactly
 PointsFitAllocation == (pc = "follow" /\ pass_ = 1) => npoints <= alloc
 AllocationExact == allocok
+\* the boundary is closed within 4n steps (alloc = -1 records a counting pass that was not back at its start)
+FollowTerminates == alloc >= 0
 \* polygons are produced in region order
 PolygonsInRegionOrder == Labelled => Len(polygons) = region_done
 TypeOK == /\ pc \in {"label", "merge", "compact", "scan_ext", "scan_hole", "follow", "done"}
